@@ -1711,7 +1711,12 @@ sf_read_raw		(SNDFILE *sndfile, void *ptr, sf_count_t bytes)
 		return	0 ;
 		} ;
 
-	if (bytes < 0 || psf->read_current >= psf->sf.frames)
+	if (bytes < 0)
+	{	psf->error = SFE_NEGATIVE_RW_LEN ;
+		return 0 ;
+		} ;
+
+	if (psf->read_current >= psf->sf.frames)
 	{	psf_memset (ptr, 0, bytes) ;
 		return 0 ;
 		} ;
